@@ -2,7 +2,7 @@
 ContextVar token discipline, base code iff nothing is active."""
 import ast
 
-from ..astq import compare_normal, conds, is_name, is_self_attr, kwarg, parse_fixture, returns_of
+from ..astq import compare_normal, conds, expand, facts_of, is_name, is_self_attr, kwarg, parse_fixture, returns_of
 from ..callgraph import CallGraph
 from ..cfg import CFG
 from ..core import AnalysisError, norm, walk_local, FuncInfo
@@ -181,16 +181,19 @@ def run(repo, chk):
         chk.ob("R05.2", f"transform.SyncedStackedTransforms.{m}:apply-target", args_ok and bool(app), fi.where, "_apply is applied to the stack's own target function")
     # _apply installs what get() selected
     ap = repo.func("transform.SyncedStackedTransforms._apply")
-    t = norm(ap.node)
+    fap = facts_of(ap)
+    fnp = ap.node.args.args[1].arg
+    unpack = [n for n in walk_local(ap.node) if isinstance(n, ast.Assign) and norm(n.value) == "self.get()" and isinstance(n.targets[0], ast.Tuple) and len(n.targets[0].elts) == 4]
+    parts = [norm(e) for e in unpack[0].targets[0].elts] if len(unpack) == 1 else [None] * 4
     chk.ob("R05.2", "transform.SyncedStackedTransforms._apply:installs-selected-variant",
-           "= self.get()" in t and "fn.__code__ = code" in t and "fn.__ptera_info__ = info" in t, ap.where,
+           len(unpack) == 1 and fap.has(f"{fnp}.__code__ = {parts[1]}", exactly=[]) and fap.has(f"{fnp}.__ptera_info__ = {parts[2]}", exactly=[]), ap.where,
            "_apply installs the code and info of the variant selected by get()")
     # _untooler pops the same captures from the function's own stack
     un = repo.func("overlay._untooler")
     pops = [c for c in ast.walk(un.node) if isinstance(c, ast.Call) and isinstance(c.func, ast.Attribute) and c.func.attr == "pop"]
     params = [a.arg for a in un.node.args.args]
     chk.ob("R05.2", "overlay._untooler:pops-same-captures", len(pops) == 1 and len(params) == 2 and norm(pops[0].args[0]) == params[1]
-           and "__ptera_stack__" in norm(un.node), un.where, "_untooler pops exactly the capture set it is given from the function's stack")
+           and expand(pops[0].func.value, un.node) == f"{params[0]}.__ptera_stack__", un.where, "_untooler pops exactly the capture set it is given from the function's stack")
     tl = repo.func("overlay._tooler")
     pushes = [c for c in ast.walk(tl.node) if isinstance(c, ast.Call) and isinstance(c.func, ast.Attribute) and c.func.attr == "push"]
     chk.ob("R05.2", "overlay._tooler:pushes-given-captures", len(pushes) == 1 and norm(pushes[0].args[0]) == [a.arg for a in tl.node.args.args][1], tl.where,
@@ -208,8 +211,9 @@ def run(repo, chk):
     ok = by_role.get("_untooler") == [undo] and by_role.get("_tooler") == [f"not {undo}"]
     chk.ob("R05.2", "overlay.autotool:undo-selects-untooler", ok, at.where, "undo=True selects the popping wrapper, otherwise the pushing one")
     wf = repo.func("selector.Call.wrap_functions")
-    t = norm(wf.node)
-    chk.ob("R05.2", "selector.Call.wrap_functions:every-level", "wrap(self.element.name, self.captures)" in t and "child.wrap_functions(wrap) for child in self.children" in t,
+    fwf = facts_of(wf)
+    wp = wf.node.args.args[1].arg
+    chk.ob("R05.2", "selector.Call.wrap_functions:every-level", fwf.has(f"{wp}(self.element.name, self.captures)", exactly=[]) and fwf.mentions(f"child.wrap_functions({wp}) for child in self.children"),
            wf.where, "wrap_functions applies the wrapper to the function of every selector level with that level's captures")
     for m, kind in (("_install_tooling", "acq"), ("_uninstall_tooling", "rel")):
         fi = repo.func(f"probe.Probe.{m}")
@@ -258,46 +262,51 @@ def run(repo, chk):
 
     # ---- R05.4
     get = repo.func("transform.StackedTransforms.get")
-    ok = False
-    why = "shape not recognised"
-    for n in walk_local(get.node):
-        if isinstance(n, ast.If):
-            c = compare_normal(n.test, lambda x: is_self_attr(x, "instrument_count"))
-            assigns_none = [s for s in n.body if isinstance(s, ast.Assign) and isinstance(s.value, ast.Constant) and s.value.value is None]
-            if c and c[0] is ast.Eq and isinstance(c[1], ast.Constant) and c[1].value == 0 and assigns_none:
-                var = norm(assigns_none[0].targets[0])
-                rets = returns_of(get.node)
-                else_ok = any(isinstance(s, ast.Assign) and norm(s.targets[0]) == var and isinstance(s.value, ast.ListComp)
-                              and "self.captures.items()" in norm(s.value) and "> 0" in norm(s.value) for s in n.orelse)
-                ok = else_ok and len(rets) == 1 and norm(rets[0].value) == f"self.tset.transform_for({var})"
-                why = f"`{norm(n.test)}` selects key None, otherwise the captures with a positive count"
-            elif assigns_none:
-                why = f"the base variant is selected under `{norm(n.test)}`, not under instrument_count == 0"
+    fget = facts_of(get)
+    rets = returns_of(get.node)
+    ok, why = False, "shape not recognised"
+    if len(rets) == 1 and isinstance(rets[0].value, ast.Call) and norm(rets[0].value.func) == "self.tset.transform_for" and len(rets[0].value.args) == 1 and isinstance(rets[0].value.args[0], ast.Name):
+        var = rets[0].value.args[0].id
+        defs = [(t, c) for t, c, n in fget.items if t.startswith(f"{var} = ") and not (isinstance(n, ast.Assign) and isinstance(n.value, ast.IfExp))]
+        none_c = [c for t, c in defs if t == f"{var} = None"]
+        live_c = [c for t, c in defs if t == f"{var} = [cap for cap, count in self.captures.items() if count > 0]"]
+        ok = len(defs) == 2 and len(none_c) == 1 and len(live_c) == 1 and set(none_c[0]) == {"self.instrument_count == 0"} and set(live_c[0]) == {"self.instrument_count != 0"}
+        why = f"definitions of the key: {defs}"
     chk.ob("R05.4", "transform.StackedTransforms.get:none-iff-count-zero", ok, get.where, "variant key is None exactly when no probe is active: " + why)
     sb = repo.func("transform.TransformSet._set_base")
-    chk.ob("R05.4", "transform.TransformSet._set_base:base-under-None", "self._register(None, fn)" in norm(sb.node), sb.where,
+    chk.ob("R05.4", "transform.TransformSet._set_base:base-under-None", facts_of(sb).has(f"self._register(None, {sb.node.args.args[1].arg})", exactly=[]), sb.where,
            "the untouched function (its original code object) is what is registered under key None")
     rg = repo.func("transform.TransformSet._register")
-    chk.ob("R05.4", "transform.TransformSet._register:records-code", "fn.__code__" in norm(rg.node) and "self.transforms[captures]" in norm(rg.node), rg.where,
+    kp, fp = (a.arg for a in rg.node.args.args[1:3])
+    chk.ob("R05.4", "transform.TransformSet._register:records-code", any(isinstance(n, ast.Assign) and not c for t, c, n in facts_of(rg).starting(f"self.transforms[{kp}] = ({fp}, {fp}.__code__,")), rg.where,
            "a variant is registered with its code object under its capture key")
     tf = repo.func("transform.TransformSet.transform_for")
-    t = norm(tf.node)
-    chk.ob("R05.4", "transform.TransformSet.transform_for:cache-hit-first", "if captures in self.transforms: return self.transforms[captures]" in t
-           and "to_instrument=captures" in t, tf.where, "a registered key (including None) is returned without re-transforming; new variants instrument exactly the requested captures")
+    ftf = facts_of(tf)
+    cp = tf.node.args.args[1].arg
+    made = [c for t, c, n in ftf.items if isinstance(n, ast.Call) and is_name(n.func, "transform")]
+    ok = ftf.has(f"return self.transforms[{cp}]", exactly=[f"{cp} in self.transforms"]) and bool(made) and all(f"{cp} not in self.transforms" in c for c in made) \
+        and all(kwarg(n, "to_instrument") is not None and is_name(kwarg(n, "to_instrument"), cp) for t, c, n in ftf.items if isinstance(n, ast.Call) and is_name(n.func, "transform"))
+    chk.ob("R05.4", "transform.TransformSet.transform_for:cache-hit-first", ok, tf.where, "a registered key (including None) is returned without re-transforming; new variants instrument exactly the requested captures")
     si = repo.func("transform.StackedTransforms.__init__")
-    chk.ob("R05.4", "transform.StackedTransforms.__init__:starts-at-zero", "self.instrument_count = 0" in norm(si.node) and "self.captures = Counter()" in norm(si.node),
+    chk.ob("R05.4", "transform.StackedTransforms.__init__:starts-at-zero", facts_of(si).has("self.instrument_count = 0", exactly=[]) and facts_of(si).has("self.captures = Counter()", exactly=[]),
            si.where, "a fresh stack starts with count 0 and no captures")
 
     # ---- R05.5
     en = repo.func("overlay.BaseOverlay.__enter__")
-    t = norm(en.node)
+    fen = facts_of(en)
     sets = [c for c in ast.walk(en.node) if isinstance(c, ast.Call) and isinstance(c.func, ast.Attribute) and c.func.attr == "set"]
-    coll_defs = [(norm(n.value), enclosing_test(n)) for n in walk_local(en.node) if isinstance(n, ast.Assign) and norm(n.targets[0]) == "collection"]
-    ok = len(sets) == 1 and norm(sets[0].args[0]) == "collection" and sorted(coll_defs) == sorted([("HandlerCollection(handlers)", "curr is None"), ("curr.plus(handlers)", "not (curr is None)")])
+    cvar = norm(sets[0].args[0]) if len(sets) == 1 and sets[0].args else "<installed collection>"
+    currs = fen.bound_to("HandlerCollection.current.get()")
+    cur = currs[0] if len(currs) == 1 else "<current collection>"
+    pairs = "[(h.selector, h) for h in self.handlers]"
+    coll_defs = sorted((t, tuple(x for x in c if "self.handlers" not in x and "curr" in x or cur in x)) for t, c, n in fen.items if isinstance(n, (ast.Assign,)) and t.startswith(f"{cvar} = "))
+    fresh = [c for t, c, n in fen.items if t == f"{cvar} = HandlerCollection({pairs})"]
+    ext = [c for t, c, n in fen.items if t == f"{cvar} = {cur}.plus({pairs})"]
+    ok = len(sets) == 1 and len(fresh) == 1 and len(ext) == 1 and f"{cur} is None" in fresh[0] and f"{cur} is not None" in ext[0] \
+        and len([1 for t, c, n in fen.items if t.startswith(f"{cvar} = ") and not (isinstance(n, ast.Assign) and isinstance(n.value, ast.IfExp))]) == 2
     chk.ob("R05.5", "overlay.BaseOverlay.__enter__:extends-current", ok, en.where,
            f"the installed collection is curr.plus(handlers) when a collection is current and a fresh one otherwise (found {coll_defs})")
-    chk.ob("R05.5", "overlay.BaseOverlay.__enter__:handlers-paired-with-own-selector", "handlers = [(h.selector, h) for h in self.handlers]" in t
-           and "curr = HandlerCollection.current.get()" in t, en.where, "every handler of the overlay is installed, paired with its own selector, relative to the current collection")
+    chk.ob("R05.5", "overlay.BaseOverlay.__enter__:handlers-paired-with-own-selector", len(fresh) == 1 and len(ext) == 1 and len(currs) == 1, en.where, "every handler of the overlay is installed, paired with its own selector, relative to the current collection")
     pl = repo.func("overlay.HandlerCollection.plus")
     r = returns_of(pl.node)
     ok = len(r) == 1 and isinstance(r[0].value, ast.Call) and "self.handler_pairs" in norm(r[0].value) and "handler_pairs" in {n.id for n in ast.walk(r[0].value) if isinstance(n, ast.Name)}
@@ -326,21 +335,6 @@ def loop_iter(node):
             return norm(cur.iter)
         cur = getattr(cur, "_parent", None)
     return None
-
-
-def enclosing_test(node):
-    cur, child = getattr(node, "_parent", None), node
-    out = []
-    while cur is not None and not isinstance(cur, (ast.FunctionDef, ast.Lambda)):
-        if isinstance(cur, ast.If):
-            if child in cur.body:
-                out.append(norm(cur.test))
-            else:
-                out.append(f"not ({norm(cur.test)})")
-        child, cur = cur, getattr(cur, "_parent", None)
-    # innermost test only, without the `if self.handlers` wrapper
-    out = [o for o in out if "self.handlers" not in o]
-    return out[0] if out else None
 
 
 def guard_of(fn, method, ctxvars):
